@@ -360,13 +360,23 @@ func runTrace(c tcase, dir string) {
 					sleepUs(s.DelaysUs[j])
 				}
 				if d, ok := k.(deadliner); ok {
-					_ = d.SetWriteDeadline(time.Now().Add(deadline))
+					if serial {
+						_ = d.SetWriteDeadline(time.Now().Add(100 * time.Millisecond))
+					} else {
+						_ = d.SetWriteDeadline(time.Now().Add(deadline))
+					}
 				}
 				if serial {
 					dgramMu.Lock()
 				}
 				tr.log("write", "w", w, "b", ch)
 				n, werr := k.Write(enc(ch))
+				for t0 := time.Now(); serial && werr != nil && os.IsTimeout(werr) && time.Since(t0) < deadline; {
+					// a datagram is sent whole or not at all: poll again with a fresh short deadline (a sender
+					// parked on a full unixgram queue is not always woken when the reader drains or closes it)
+					_ = k.(deadliner).SetWriteDeadline(time.Now().Add(100 * time.Millisecond))
+					n, werr = k.Write(enc(ch))
+				}
 				if werr != nil || n != len(ch) {
 					if werr != nil && os.IsTimeout(werr) {
 						tr.log("stall", "what", "write", "w", w)
@@ -489,7 +499,9 @@ func runTrace(c tcase, dir string) {
 		buf := make([]byte, 1<<20)
 		for t0 := time.Now(); time.Since(t0) < 2*time.Second; time.Sleep(200 * time.Microsecond) {
 			n := runtime.Stack(buf, true)
-			if !strings.Contains(string(buf[:n]), "logstream.(*socketStream).handleConn") {
+			// (a handler that has not run yet shows up as ...stream.func2.gowrap1)
+			if d := string(buf[:n]); !strings.Contains(d, "logstream.(*socketStream).handleConn") &&
+				!strings.Contains(d, "logstream.(*socketStream).stream.func") {
 				break
 			}
 		}
